@@ -102,35 +102,109 @@ def _param_role(fn, e, depth=0):
     return _param_role(fn, match.strip_conv(kids(decl[0])[0]), depth + 1)
 
 
-def _lexi_class_of_call(fn, n):
-    """('lexicographic' | 'lexicographic_rev') if n calls the operator() of one of the two functors on a temporary / object that
-    carries this functor's own comparator and has the same template arguments"""
+# The two functors were once told apart by their class names.  A functor is now known by what its operator() computes: the
+# decision table below is evaluated for every operator() over two std::pair parameters, and the order it computes (strict
+# ascending / its reverse / neither) is what the other rules ask for.  Only the two historic names still promise a direction
+# of their own, which the table then has to confirm.
+_LEXI_NAMES = {"lexicographic": False, "lexicographic_rev": True}
+
+
+def _type_key(ty):
+    return (ty or "").replace("const ", "").replace("class ", "").replace("struct ", "").replace(" ", "")
+
+
+def _functor_key(record, rtargs):
+    return _type_key((record or "") + ("<" + ", ".join(rtargs) + ">" if rtargs else ""))
+
+
+def _lexi_ops(tu):
+    """type key -> operator() of every class of the program that is called with two std::pair operands (tu.by_did still
+    holds the functions the normaliser dropped from tu.functions because no function of the program calls them: a functor
+    only the standard library calls is one of these)"""
+    ops = getattr(tu, "_c08_lexi_ops", None)
+    if ops is None:
+        ops = {}
+        for f in tu.by_did.values():
+            if f.kind == "operator" and f.d.get("op") == "()" and f.record and f.body is not None and len(f.params) == 2 \
+                    and all(_type_key(p.get("ty")).startswith("std::pair<") for p in f.params):
+                k = _functor_key(f.record, f.rtargs)
+                ops[k] = None if k in ops else f       # two bodies for one type: not told apart
+        tu._c08_lexi_ops = ops
+    return ops
+
+
+def _comp_field(fn):
+    """name of the field that carries the caller's comparator: the only thing the one-argument constructor of the functor
+    initialises, from its parameter (a reference member) or from the address of its parameter (a pointer member)"""
+    ctors = [f for f in fn.tu.by_did.values() if f.kind == "ctor" and f.record == fn.record and f.rtargs == fn.rtargs and len(f.params) == 1
+             and not f.d.get("copy_ctor") and not f.d.get("move_ctor")]
+    if len(ctors) != 1 or len(ctors[0].inits) != 1 or not ctors[0].inits[0].get("field") or (ctors[0].body is not None and [c for c in kids(ctors[0].body) if c]):
+        return None
+    e = match.strip_conv(ctors[0].inits[0].get("e"))
+    u = match.unop(e, ("&",)) if e is not None and e["k"] == "UnaryOperator" else None
+    if ref_of(e) == ctors[0].params[0]["did"]:
+        return ctors[0].inits[0]["field"], False
+    if u and ref_of(u[1]) == ctors[0].params[0]["did"]:
+        return ctors[0].inits[0]["field"], True
+    return None
+
+
+def _own_comp(fn, e):
+    """e denotes the comparator the functor was constructed with: this->F, or *this->F for a pointer member"""
+    e = strip_casts(e)           # not through a construction: functor(comp_) is another object than comp_
+    if e is None:
+        return False
+    if match.this_field(e) == "comp_" and not (e.get("ty") or "").rstrip().endswith("*"):
+        return True
+    cf = _comp_field(fn)
+    if cf is None:
+        return False
+    if cf[1]:
+        d = match.deref_of(e)
+        return d is not None and match.this_field(d) == cf[0]
+    return match.this_field(e) == cf[0]
+
+
+def _lexi_dir_of_call(fn, n):
+    """False (ascending) / True (reversed) if n calls the operator() of a functor over the same pair type that carries this
+    functor's own comparator and is itself one of the two orders"""
     n = strip_casts(n)
     c = n.get("callee") if n is not None else None
-    if not c or n.get("op") != "()" or len(kids(n)) != 3:
+    if not c or n.get("op") != "()" or len(kids(n)) != 3 or not c.get("record"):
         return None
-    base = (c.get("record") or "").split("::")[-1]
-    if base not in ("lexicographic", "lexicographic_rev") or c.get("rtargs") != fn.rtargs:
+    if c.get("rtargs") != fn.rtargs and [a for a in c.get("rtargs") or [] if a not in ("true", "false")] != [a for a in fn.rtargs if a not in ("true", "false")]:
         return None
-    if (c.get("record") or "").rsplit("::", 1)[0] != (fn.record or "").rsplit("::", 1)[0]:
+    if c["record"].rsplit("::", 1)[0] != (fn.record or "").rsplit("::", 1)[0]:
         return None
-    if match.this_field(match.strip_conv(kids(n)[0])) != "comp_":
+    obj = strip_casts(kids(n)[0])
+    if obj is None or obj["k"] not in ("CXXConstructExpr", "CXXTemporaryObjectExpr") or len(kids(obj)) != 1 or not _own_comp(fn, kids(obj)[0]):
         return None
-    ctors = [f for f in fn.tu.functions if f.kind == "ctor" and f.record == c.get("record") and f.rtargs == fn.rtargs and len(f.params) == 1]
-    if len(ctors) != 1 or len(ctors[0].inits) != 1 or ctors[0].inits[0].get("field") != "comp_" or \
-            ref_of(ctors[0].inits[0].get("e")) != ctors[0].params[0]["did"]:
+    callee = fn.tu.by_did.get(c.get("did"))
+    if callee is None or callee.did == fn.did or _comp_field(callee) is None:
         return None
-    return base
+    return functor_direction(fn.tu, _functor_key(c["record"], c.get("rtargs") or []))
 
 
-def lexi_one(ck, fn, cls, rev):
+_LEXI_BUSY = set()
+
+
+def lexi_eval(fn):
+    """the decision table of an operator()(p1, p2) over {comp(p1.first, p2.first), comp(p2.first, p1.first), p1.second <
+    p2.second, p2.second < p1.second}: (rows, a row that is wrong for the strict ascending order, a row that is wrong for its
+    reverse).  Undecidable if something else decides the result."""
+    if getattr(fn, "_c08_lexi", None) is not None:
+        return fn._c08_lexi
+    if fn.did in _LEXI_BUSY:
+        raise dtable.Undecidable("%s: the functors call each other in a circle" % fn.loc)
+    cls = (fn.record or "").split("::")[-1]
+
     def first_role(a):
         f = match.field_of(a)
         return _param_role(fn, f[0]) if f and f[1] == "first" else None
 
     def atomize(n, run):
         fc = match.functor_call(n)
-        if fc and match.this_field(fc[0]) == "comp_" and len(fc[1]) == 2:
+        if fc and len(fc[1]) == 2 and _own_comp(fn, fc[0]):
             w = [first_role(a) for a in fc[1]]
             if w == [1, 2]:
                 return ("c12", False)
@@ -148,48 +222,120 @@ def lexi_one(ck, fn, cls, rev):
                     op = b[0] if (ra, rb) == (1, 2) else _MIRROR[b[0]]
                     # p1.second <= p2.second  is  !(p2.second < p1.second)
                     return {"<": ("s12", False), ">": ("s21", False), "<=": ("s21", True), ">=": ("s12", True)}[op]
-        dc = _lexi_class_of_call(fn, n) if fc and len(fc[1]) == 2 else None
-        if dc:
+        dc = _lexi_dir_of_call(fn, n) if fc and len(fc[1]) == 2 else None
+        if dc is not None:
             w = [_param_role(fn, a) for a in fc[1]]
             if sorted((w[0] or 0, w[1] or 0)) == [1, 2]:
-                lt12 = (w == [1, 2]) == (dc == "lexicographic")       # the call asks (p1, p2) < in the ascending order
+                lt12 = (w == [1, 2]) == (not dc)       # the call asks (p1, p2) < in the ascending order
                 if lt12:
                     return run.atom("c12") or (not run.atom("c21") and run.atom("s12"))
                 return run.atom("c21") or (not run.atom("c12") and run.atom("s21"))
         return None
-    leaves = dtable.explore(fn.body, atomize, fn)
-    atoms = ["c12", "c21", "s12", "s21"]
-    bad = None
-    rows = 0
-    for v, lf in dtable.table(leaves, lambda v: not (v["c12"] and v["c21"]) and not (v["s12"] and v["s21"]), atoms):
-        rows += 1
-        if lf["stop"][0] != "return" or lf["stop"][1][0] is None:
-            raise dtable.Undecidable("%s: a path of %s::operator() does not end in `return <bool>` (%s)" % (fn.loc, cls, dtable.fmt_val(v)))
-        r2 = dtable.Run(atomize, v, fn)
-        r2.env = dict(lf["run"].env)
-        try:
-            r = r2.truth(lf["stop"][1][0])
-        except dtable._Need as nd:
-            raise dtable.Undecidable("%s: the value returned by %s::operator() depends on %s" % (fn.loc, cls, nd.key))
-        lt = v["c12"] or (not v["c12"] and not v["c21"] and v["s12"])
-        gt = v["c21"] or (not v["c12"] and not v["c21"] and v["s21"])
-        want = gt if rev else lt
-        if (lt or gt) and r != want:
-            bad = v
+    _LEXI_BUSY.add(fn.did)
+    try:
+        leaves = dtable.explore(fn.body, atomize, fn)
+        atoms = ["c12", "c21", "s12", "s21"]
+        bad = {False: None, True: None}
+        rows = 0
+        for v, lf in dtable.table(leaves, lambda v: not (v["c12"] and v["c21"]) and not (v["s12"] and v["s21"]), atoms):
+            rows += 1
+            if lf["stop"][0] != "return" or lf["stop"][1][0] is None:
+                raise dtable.Undecidable("%s: a path of %s::operator() does not end in `return <bool>` (%s)" % (fn.loc, cls, dtable.fmt_val(v)))
+            r2 = dtable.Run(atomize, v, fn)
+            r2.env = dict(lf["run"].env)
+            try:
+                r = r2.truth(lf["stop"][1][0])
+            except dtable._Need as nd:
+                raise dtable.Undecidable("%s: the value returned by %s::operator() depends on %s" % (fn.loc, cls, nd.key))
+            lt = v["c12"] or (not v["c12"] and not v["c21"] and v["s12"])
+            gt = v["c21"] or (not v["c12"] and not v["c21"] and v["s21"])
+            for rev in (False, True):
+                if (lt or gt) and r != (gt if rev else lt):
+                    bad[rev] = v
+    finally:
+        _LEXI_BUSY.discard(fn.did)
+    fn._c08_lexi = (rows, bad[False], bad[True])
+    return fn._c08_lexi
+
+
+def functor_direction(tu, ty):
+    """the order a comparator type stands for: False = strict (value, sequence) order, True = its reverse, "neither" = a pair
+    functor whose table is neither (LEXI-TABLE reports it), None = not a functor over pairs that this file reads.  The two
+    historic class names answer by their name (LEXI-TABLE holds them to it); every other class by its decision table."""
+    key = _type_key(ty)
+    base = key.split("<")[0].split("::")[-1]
+    if base in _LEXI_NAMES:
+        return _LEXI_NAMES[base]
+    f = _lexi_ops(tu).get(key)
+    if f is None:
+        return None
+    rows, bad_asc, bad_desc = lexi_eval(f)
+    if bad_asc is None and bad_desc is None:
+        raise dtable.Undecidable("%s: the decision table of %s::operator() has no row that tells the two orders apart" % (f.loc, f.record))
+    if bad_asc is None:
+        return False
+    if bad_desc is None:
+        return True
+    return "neither"
+
+
+def lexi_one(ck, fn, cls, rev):
+    """rev: the direction the class name promises, None for a class that is only known by what it computes"""
+    rows, bad_asc, bad_desc = lexi_eval(fn)
     tag = "%s (%s)" % (cls, fn.record.split("::")[1])
+    if rev is None:
+        if bad_asc is not None and bad_desc is not None:
+            # positive: one row against either order
+            ck.violation("LEXI-TABLE", fn.qname, tag.replace(" ", ""), "%s is neither the strict lexicographic order on (value, sequence) (wrong for %s) nor its reverse "
+                         "(wrong for %s)" % (cls, dtable.fmt_val(bad_asc), dtable.fmt_val(bad_desc)), fn.loc)
+            return
+        if bad_asc is None and bad_desc is None:
+            raise dtable.Undecidable("%s: the decision table of %s::operator() has no row that tells the two orders apart" % (fn.loc, cls))
+        rev = bad_asc is not None
+    bad = bad_desc if rev else bad_asc
     if bad:
         ck.violation("LEXI-TABLE", fn.qname, tag.replace(" ", ""), "%s is not the %s lexicographic order on (value, sequence): wrong for %s" % (cls, "reversed" if rev else "strict", dtable.fmt_val(bad)), fn.loc)
     else:
         ck.ok("LEXI-TABLE", tag, "%d rows: %s (value, sequence index) order" % (rows, "reversed strict" if rev else "strict"))
 
 
+def _novel_functors(tu):
+    """pair functors under another name than the two historic ones that multisequence_partition / _selection hold as a local
+    (the comparator objects, the comparator type of the queues)"""
+    tys = set()
+    for f in tu.find(qname=PART) + tu.find(qname=SEL):
+        for x in f.nodes():
+            if x["k"] == "VarDecl":
+                tys.add(_type_key(x.get("ty")))
+    out = []
+    for key, f in sorted(_lexi_ops(tu).items(), key=lambda kv: kv[0]):
+        if f is None or key.split("<")[0].split("::")[-1] in _LEXI_NAMES:
+            continue
+        if any(key in t for t in tys):
+            out.append(f)
+    return out
+
+
 def check_lexi(ck, tu):
+    have = {False: 0, True: 0}
     for cls, rev in (("lexicographic", False), ("lexicographic_rev", True)):
         fns = [f for f in tu.functions if f.kind == "operator" and f.record and f.record.endswith("::" + cls) and f.d.get("op") == "()"]
-        ck.require(fns, "%s::operator() not instantiated" % cls)
+        have[rev] += len(fns)
         for fn in fns:
             ck.require(len(fn.params) == 2, "%s: two parameters expected" % fn.loc)
             ck.guarded(lambda fn=fn, cls=cls, rev=rev: lexi_one(ck, fn, cls, rev))
+    for fn in _novel_functors(tu):
+        cls = "%s<%s>" % (fn.record.split("::")[-1], ", ".join(fn.rtargs))
+        try:
+            d = functor_direction(tu, _functor_key(fn.record, fn.rtargs))
+        except ir.AnalysisBroken:
+            d = None            # the guarded run below says why
+        for rev in (False, True):
+            if d is None or d == "neither" or d is rev:
+                have[rev] += 1
+        ck.guarded(lambda fn=fn, cls=cls: lexi_one(ck, fn, cls, None))
+    for cls, rev in (("lexicographic", False), ("lexicographic_rev", True)):
+        ck.require(have[rev], "%s::operator() not instantiated (nor any other functor over pairs that computes the %s order)" % (cls, "reversed" if rev else "strict"))
 
 
 # ------------------------------------------------------------------------------------------------ local lambdas
@@ -1347,6 +1493,16 @@ def _compound(n0):
     return n0["k"] in ("BinaryOperator", "UnaryOperator", "ParenExpr") and n0.get("op") in ("&&", "||", "!", None)
 
 
+def _is_lexi_callee(tu, c):
+    """the callee is the operator() of a pair functor whose decision table was read: it has no effect"""
+    if not c.get("record"):
+        return False
+    try:
+        return functor_direction(tu, _functor_key(c["record"], c.get("rtargs") or [])) in (False, True)
+    except ir.AnalysisBroken:
+        return False
+
+
 def opaque_events(cx, lf, what, is_write):
     """a leaf whose effects hide a decision cannot be judged by its assignments: a relevant write with a ?: inside the same
     expression, or a project helper / lambda that was not inlined (it may write what it captured)"""
@@ -1365,7 +1521,7 @@ def opaque_events(cx, lf, what, is_write):
                 if par is not None and is_write(par) and match.binop(par, ("=",)):
                     hidden = hidden or any(match.same_expr(arm, match.binop(par, ("=",))[1]) for arm in kids(y)[1:])
             helper = y["k"] == "LambdaExpr" or ("callee" in y and y.get("op") not in ("[]", "*", "->") and cx.fn.tu.by_did.get(y["callee"].get("did")) is not None
-                                                and (y["callee"].get("record") or "").split("::")[-1] not in ("lexicographic", "lexicographic_rev"))
+                                                and not _is_lexi_callee(cx.fn.tu, y["callee"]))
             if helper and "callee" in y:
                 sub = cx.inline_value(y)
                 if sub is not None and not any(writes_to(w)[0] is not None or ("callee" in w and w.get("op") not in ("[]", "*", "->")) for w in ir.walk(sub)):
@@ -1796,6 +1952,28 @@ def heap_vectors(cx):
     return out
 
 
+def _template_args(ty):
+    """the top-level template arguments of a type written as name<a, b<c, d>, e>"""
+    ty = ty or ""
+    if "<" not in ty or not ty.rstrip().endswith(">"):
+        return []
+    inner = ty[ty.index("<") + 1:ty.rstrip().rindex(">")]
+    out, depth, cur = [], 0, ""
+    for ch in inner:
+        if ch in "<([":
+            depth += 1
+        elif ch in ">)]":
+            depth -= 1
+        if ch == "," and depth == 0:
+            out.append(cur.strip())
+            cur = ""
+        else:
+            cur += ch
+    if cur.strip():
+        out.append(cur.strip())
+    return out
+
+
 def check_pq(ck, cx, tag):
     """priority queues: skew > 0 -> smallest right candidate first (lexicographic_rev as max-heap comparator), fed from the
     right border; skew < 0 -> largest left element first (lexicographic), fed from the left border - 1"""
@@ -1820,12 +1998,16 @@ def check_pq(ck, cx, tag):
             if len(tys) != 1 or None in tys:
                 raise dtable.Undecidable("%s: the heap algorithms on %s (line %s) do not all receive one comparator" % (fn.loc, pq.get("name"), pq.get("l")))
             cmp_ty = tys.pop()
-        if "lexicographic_rev<" in cmp_ty:
-            rev = True
-        elif "lexicographic<" in cmp_ty:
-            rev = False
         else:
+            targs = _template_args(cmp_ty)
+            if len(targs) != 3:
+                raise dtable.Undecidable("%s: the priority queue at line %s does not name its comparator type" % (fn.loc, pq.get("l")))
+            cmp_ty = targs[2]
+        rev = functor_direction(fn.tu, cmp_ty)
+        if rev is None:
             raise dtable.Undecidable("%s: comparator type of the priority queue at line %s is not one of the two lexicographic functors" % (fn.loc, pq.get("l")))
+        if rev == "neither":
+            raise dtable.Undecidable("%s: the comparator of the priority queue at line %s computes neither of the two lexicographic orders (see LEXI-TABLE)" % (fn.loc, pq.get("l")))
         want_rev = bool(skew_pos)
 
         def show_src(s):
@@ -2035,8 +2217,11 @@ def check_middle(ck, cx, tag):
             return na
         fc = match.functor_call(n0)
         if fc and len(fc[1]) == 2:
-            cls = ("callee" in n0 and (n0["callee"].get("record") or "").split("::")[-1]) or ""
-            if cls in ("lexicographic", "lexicographic_rev"):
+            cdir = functor_direction(fn.tu, _functor_key(n0["callee"]["record"], n0["callee"].get("rtargs") or [])) \
+                if "callee" in n0 and n0["callee"].get("record") else None
+            if cdir == "neither":
+                raise dtable.Undecidable("%s: the pair comparison at line %s computes neither of the two lexicographic orders (see LEXI-TABLE)" % (fn.loc, n0.get("l")))
+            if cdir is not None:
                 roles = []
                 for a_ in fc[1]:
                     pp = pair_parts(cx, a_, n0)
@@ -2069,7 +2254,7 @@ def check_middle(ck, cx, tag):
                     elif r[0] == "cur":
                         info["S"].add(d_)
                 x_first = roles[0][0] == "x"
-                return ("P:x<cur", False) if x_first == (cls == "lexicographic") else ("P:cur<x", False)
+                return ("P:x<cur", False) if x_first == (not cdir) else ("P:cur<x", False)
             if ref_of(fc[0]) is not None:
                 roles = []
                 for a_ in fc[1]:
